@@ -45,6 +45,8 @@ mutant('C03', 'pad-with-empty-not-zero', DS, '        while la or lb:\n         
 mutant('C03', 'letters-shifted', DS, "        if cls.re_alpha.match(x):\n            return ord(x)", "        if cls.re_alpha.match(x):\n            return ord(x) + 256")
 mutant('C03', 'hash-back-to-spelling', DS, "        return hash((int(self.epoch or \"0\"), norm(self.upstream_version),\n                     norm(self.debian_revision)))",
        "        return hash(str(self))")
+mutant('C03', 'hash-memoised-across-assignment', DS, "        return hash((int(self.epoch or \"0\"), norm(self.upstream_version),\n                     norm(self.debian_revision)))",
+       "        if '_hmemo' in self.__dict__:\n            return self.__dict__['_hmemo']\n        h = hash((int(self.epoch or \"0\"), norm(self.upstream_version),\n                     norm(self.debian_revision)))\n        object.__setattr__(self, '_hmemo', h)\n        return h")
 mutant('C03', 'epoch-compared-as-string', DS, '        lepoch = int(self.epoch or "0")\n        repoch = int(other.epoch or "0")', '        lepoch = self.epoch or "0"\n        repoch = other.epoch or "0"')
 # ---- C05
 mutant('C05', 'comment-handover-dropped', PAR, "                value.comment_element = original.comment_element\n                original.comment_element = None",
